@@ -251,6 +251,42 @@ func TestC20(t *testing.T) {
 			}
 		}
 	}
+	// many small values of a union whose OTHER option is large: what a decoded element costs must
+	// not depend on options it does not select
+	{
+		u8, u64 := &Ty{Kind: "u", N: 1}, &Ty{Kind: "u", N: 8}
+		row := &Ty{Kind: "cont"}
+		for i := 0; i < 24; i++ {
+			row.Fields = append(row.Fields, u64)
+		}
+		bigT := &Ty{Kind: "cont"}
+		for i := 0; i < 24; i++ {
+			bigT.Fields = append(bigT.Fields, row)
+		}
+		for _, uty := range []*Ty{
+			{Kind: "union", Fields: []*Ty{bigT, u8}},
+			{Kind: "union", Fields: []*Ty{u8, bigT}},
+			{Kind: "union", None: true, Fields: []*Ty{bigT, u8}},
+		} {
+			ty := &Ty{Kind: "list", Elem: uty, N: 1 << 40}
+			sel := byte(1)
+			if uty.Fields[0] == u8 && !uty.None {
+				sel = 0
+			} else if uty.None {
+				sel = 2
+			}
+			cnt := 1500
+			data := make([]byte, 0, 6*cnt)
+			for i := 0; i < cnt; i++ {
+				off := uint32(4*cnt + 2*i)
+				data = append(data, byte(off), byte(off>>8), byte(off>>16), byte(off>>24))
+			}
+			for i := 0; i < cnt; i++ {
+				data = append(data, sel, byte(i))
+			}
+			do("unionbig", ty, data)
+		}
+	}
 	n := 150
 	if thorough() {
 		n = 3000
